@@ -23,6 +23,13 @@ var c16Payloads = []payload{
 	{"int-tautology-spaced", "7 = 7", []string{"TAUTOLOGY:CRITICAL"}},
 	{"string-tautology", "'a'='a'", []string{"TAUTOLOGY:CRITICAL"}},
 	{"ident-tautology", "x = x", []string{"TAUTOLOGY:CRITICAL"}},
+	{"empty-string-tautology", "''=''", []string{"TAUTOLOGY:CRITICAL"}},
+	{"blank-string-tautology", "' ' = ' '", []string{"TAUTOLOGY:CRITICAL"}},
+	{"long-string-tautology", "'admin''--' = 'admin''--'", []string{"TAUTOLOGY:CRITICAL"}},
+	{"zero-tautology", "0=0", []string{"TAUTOLOGY:CRITICAL"}},
+	{"decimal-tautology", "1.0 = 1.0", []string{"TAUTOLOGY:CRITICAL"}},
+	{"qualified-ident-tautology", "t.x = t.x", []string{"TAUTOLOGY:CRITICAL"}},
+	{"upper-string-tautology", "'A'='A'", []string{"TAUTOLOGY:CRITICAL"}},
 	{"or-tautology", "id = 5 OR 1=1", []string{"TAUTOLOGY:CRITICAL", "TAUTOLOGY:CRITICAL"}},
 	{"or-tautology-left", "2=2 or id = 5", []string{"TAUTOLOGY:CRITICAL", "TAUTOLOGY:CRITICAL"}},
 	{"sleep", "SLEEP(5) = 0", []string{"TIME_BASED:HIGH"}},
@@ -79,6 +86,12 @@ var c16Contexts = []ctxTemplate{
 	{"window-partition", "SELECT SUM(a) OVER (PARTITION BY ({C})) FROM t"},
 	{"window-frame-bound", "SELECT SUM(a) OVER (ORDER BY a ROWS BETWEEN ({C}) PRECEDING AND CURRENT ROW) FROM t"},
 	{"window-order", "SELECT SUM(a) OVER (ORDER BY ({C})) FROM t"},
+	{"window-frame-end-after-current-row", "SELECT SUM(a) OVER (ORDER BY a ROWS BETWEEN CURRENT ROW AND ({C}) FOLLOWING) FROM t"},
+	{"window-frame-end-after-unbounded", "SELECT SUM(a) OVER (ORDER BY a RANGE BETWEEN UNBOUNDED PRECEDING AND ({C}) FOLLOWING) FROM t"},
+	{"window-frame-both-bounds-second", "SELECT SUM(a) OVER (ORDER BY a ROWS BETWEEN 1 PRECEDING AND ({C}) FOLLOWING) FROM t"},
+	{"window-frame-single-bound", "SELECT SUM(a) OVER (ORDER BY a ROWS ({C}) PRECEDING) FROM t"},
+	{"window-frame-in-named-window", "SELECT SUM(a) OVER w FROM t WINDOW w AS (ORDER BY a ROWS BETWEEN CURRENT ROW AND ({C}) FOLLOWING)"},
+	{"window-second-function", "SELECT SUM(a) OVER (ORDER BY a), AVG(b) OVER (PARTITION BY c ORDER BY d ROWS BETWEEN UNBOUNDED PRECEDING AND ({C}) FOLLOWING) FROM t"},
 	{"cte-recursive-arm", "WITH RECURSIVE c AS (SELECT a FROM t UNION ALL SELECT a FROM c WHERE {C}) SELECT a FROM c"},
 	{"lateral-join", "SELECT a FROM t, LATERAL (SELECT b FROM u WHERE {C}) x"},
 	{"join-using-then-where", "SELECT a FROM t JOIN u USING (i) WHERE {C}"},
